@@ -608,9 +608,13 @@ def reset_rule(chk, db, fn, k, R, want, paths, succ, full, fview, L, label, wher
                    'every element decoded once, in order, exactly `count` of them'), function=flabel)
 
 
+_FREE_BEGIN = re.compile(r'^(?:std::)?c?begin\((.*)\)(?:#\d+)?$')
+_FREE_END = re.compile(r'^(?:std::)?c?end\((.*)\)(?:#\d+)?$')
+
+
 def raw_from_start(raw):
     b = repr(raw[3][0])
-    return b.endswith('.data()') or b.endswith('[0]') or b.endswith('.begin()')
+    return b.endswith('.data()') or b.endswith('[0]') or b.endswith('.begin()') or bool(_FREE_BEGIN.match(b))
 
 
 def raw_count(raw, whole):
@@ -619,6 +623,9 @@ def raw_count(raw, whole):
     b, e = repr(raw[3][0]), repr(raw[3][1])
     if b.endswith('.begin()') and e.endswith('.end()') and b[:-len('.begin()')] == e[:-len('.end()')]:
         return whole
+    mb, me = _FREE_BEGIN.match(b), _FREE_END.match(e)
+    if mb and me and mb.group(1) == me.group(1):
+        return whole           # std::begin(x) / std::end(x) of the whole container or array
     return raw[2] - raw[1]
 
 
